@@ -423,6 +423,26 @@ def box_in(rng, fen):
     return " ".join(out)
 
 
+def promotion_fens():
+    """a pawn one step from promotion on every file, for either colour, with and without enemy pieces to capture on the neighbouring
+    promotion squares (kings far away on another file)"""
+    out = []
+    for f in range(8):
+        kf = (f + 4) % 8
+        for caps in ((), (-1,), (1,), (-1, 1)):
+            board = {48 + f: "P", kf: "K", 24 + kf: "k"}
+            for d in caps:
+                if 0 <= f + d < 8:
+                    board[56 + f + d] = "n"
+            out.append(board_to_fen(board, "w"))
+            board = {8 + f: "p", 56 + kf: "k", 32 + kf: "K"}
+            for d in caps:
+                if 0 <= f + d < 8:
+                    board[f + d] = "N"
+            out.append(board_to_fen(board, "b"))
+    return list(dict.fromkeys(out))
+
+
 def like_piece_fens(rng, n):
     """candidate positions with 2-4 like pieces able to reach common squares, some of them pinned; TLC keeps
     the well-formed ones (CaseGen's wf flag), so no chess judgement is made here"""
@@ -504,6 +524,8 @@ def text_cases(prop, tier, roots, rng, wd):
     fens = [r["fen"] for r in sample]
     if prop == "C14":
         fens += like_piece_fens(rng, 400 if T else 60)
+        pf = promotion_fens()
+        fens += pf if T else rng.sample(pf, 24) + [x for x in pf if x.split("/")[1].startswith("P") or x.split("/")[6].startswith("p")][:4]
     gen, infos = casegen(wd, fens)
     all_sans = [s for g in gen.values() for _, s in g["sans"]]
     cases = []
